@@ -114,3 +114,49 @@ func TestDump(t *testing.T) {
 		fmt.Println("ISSUE", is)
 	}
 }
+
+// TestLowerErr is a development aid: IRX_SRC=<file.wgsl> prints the full Parse/Lower error.
+func TestLowerErr(t *testing.T) {
+	p := os.Getenv("IRX_SRC")
+	if p == "" {
+		t.Skip("IRX_SRC not set")
+	}
+	b, _ := os.ReadFile(p)
+	ast, err := naga.Parse(string(b))
+	if err != nil {
+		fmt.Println("PARSE:", err)
+		return
+	}
+	_, err = naga.LowerWithSource(ast, string(b))
+	fmt.Println("LOWER:", err)
+}
+
+// TestNagaValidateSurvey is a development aid: which corpus files fail naga.Validate and how.
+func TestNagaValidateSurvey(t *testing.T) {
+	if os.Getenv("IRX_NV") == "" {
+		t.Skip("IRX_NV not set")
+	}
+	files, _ := filepath.Glob("/repo/snapshot/testdata/in/*.wgsl")
+	sort.Strings(files)
+	for _, p := range files {
+		m, _ := lowerFile(t, p)
+		if m == nil {
+			continue
+		}
+		errs, err := naga.Validate(m)
+		if err != nil {
+			fmt.Println(filepath.Base(p), "ERR", err)
+		}
+		seen := map[string]bool{}
+		for _, e := range errs {
+			s := e.Error()
+			if len(s) > 160 {
+				s = s[:160]
+			}
+			if !seen[s] {
+				seen[s] = true
+				fmt.Println(filepath.Base(p), "::", s)
+			}
+		}
+	}
+}
